@@ -23,7 +23,7 @@ RULE = (
     "rational oracle in the lattice frame (plane signs / voxel occupancy / polygon crossing number x height / squared distance "
     "to the core / quadratic form); points whose exact distance to the boundary is < 1e-6 L are skipped.  One batch call over "
     "all points, single (3,) calls, (1,3) calls, reversed and sub-batches must agree element-wise; for spheropolyhedra every "
-    "ordered batch of length <=3 over six point classes is executed.  non-trivial = point outside the core or not at the "
+    "ordered batch of length <=3 over six point classes is executed.  Also: placements at sizes 1e-6/1e6/1e-9 and ~2e7 diameters from the origin; whole-number points as int64 arrays / nested lists of Python ints must be answered like the same floats.  non-trivial = point outside the core or not at the "
     "centre, counted per distinct (shape, placement, point)."
 )
 ASSUMPTIONS = ["'uniform in an enlarged bounding box' replaced by the complete half-integer lattice plus feature-offset points", "batch sizes up to 2000 (the full query set padded by repetition)"]
